@@ -12,7 +12,7 @@ Chars == <<"a", "1", "(", ")", "{", "}", ",", ":", "@">>
 Toks == <<"0", "1", "2", "17", "K", "X", "H20", "IF", "NOTIF", "ELSE", "ENDIF", "VERIFY", "TOALT", "FROMALT", "IFDUP", "DUP",
           "SWAP", "SIZE", "EQUAL", "EQUALVERIFY", "BOOLAND", "BOOLOR", "ADD", "NUMEQUAL", "NUMEQUALVERIFY", "0NOTEQUAL",
           "CHECKSIG", "CHECKSIGVERIFY", "CHECKSIGADD", "CHECKMULTISIG", "CHECKMULTISIGVERIFY", "CLTV", "CSV", "SHA256",
-          "HASH160", "RETURN", "PUSHDATA1_TRUNC", "BAD">>
+          "HASH160", "RETURN", "PUSHDATA1_TRUNC", "BAD", "NEG", "NONMIN", "PUSH5">>
 
 RECURSIVE Seqs(_, _)
 Seqs(A, n) == IF n = 0 THEN {<<>>}
